@@ -24,5 +24,4 @@ Theorem wc_overwrite_guard_gen_post : forall (T : Type) (sub : T -> T -> T) (abs
   else hupd T h id (set_sens T d (d_costs T d ++ [x]) (insert_m1 (@SV T x) (d_signed T d)) x).
 Proof. intros. cbv zeta. rewrite wc_overwrite_guard_gen_eq_model. reflexivity. Qed.
 
-Print Assumptions wc_overwrite_guard_gen_eq_model.
-Print Assumptions wc_overwrite_guard_gen_post.
+(* Print Assumptions of the theorems above is run by harness/core.py translated_obligations (qualified names, whitelist) *)
